@@ -362,11 +362,14 @@ def peer_from_spec(spec):
 
 # ------------------------------------------------------------------------------- sockets
 
+_CUR = [None]
+
+
 class VSocket:
-    net = None
 
     def __init__(self, family=socket.AF_INET, type=socket.SOCK_STREAM, proto=0, fileno=None):
-        net = VSocket.net
+        net = _CUR[0]
+        self._net = net
         self.family = family
         self.conn = None
         self.timeout = None
@@ -382,7 +385,7 @@ class VSocket:
         try:
             if not self.closed:
                 self.rec['gc'] = True
-                VSocket.net.open_now -= 1
+                self._net.open_now -= 1
         except Exception:
             pass
 
@@ -397,13 +400,13 @@ class VSocket:
         pass
 
     def _lookup(self, addr):
-        net = VSocket.net
+        net = self._net
         self.rec['addr'] = [addr[0], addr[1]]
         net.connects.append((self.rec['id'], int(self.family), addr[0], addr[1], bool(self.rec['nonblocking'])))
         return net.servers.get((addr[0], addr[1]))
 
     def connect(self, addr):
-        net = VSocket.net
+        net = self._net
         srv = self._lookup(addr)
         if srv is None:
             raise ConnectionRefusedError(errno.ECONNREFUSED, 'Connection refused')
@@ -432,7 +435,7 @@ class VSocket:
             return e.errno or errno.ECONNREFUSED
 
     def recv(self, n, flags=0):
-        net = VSocket.net
+        net = self._net
         if self.closed:
             raise OSError(errno.EBADF, 'Bad file descriptor')
         if self.pending_error is not None and self.pending_error != 'never':
@@ -486,14 +489,14 @@ class VSocket:
 
     def close(self):
         if not self.closed:
-            VSocket.net.open_now -= 1
+            self._net.open_now -= 1
         self.closed = True
         self.rec['closed'] = True
         if self.conn is not None:
             self.conn.closed_by_client = True
 
     def fileno(self):
-        net = VSocket.net
+        net = self._net
         if self.closed:
             return -1
         with net.lock:
@@ -503,14 +506,14 @@ class VSocket:
         return net.fd_of[self]
 
     def bind(self, addr):
-        VSocket.net.binds.append((int(self.family), addr[0], addr[1]))
+        self._net.binds.append((int(self.family), addr[0], addr[1]))
 
     def listen(self, backlog=0):
         self.listening = True
         self.rec['listening'] = True
 
     def accept(self):
-        net = VSocket.net
+        net = self._net
         peer = net.pending_clients.pop(0)
         c = VSocket(self.family)
         c.conn = peer.accept(False)
@@ -623,7 +626,7 @@ class FakeNet:
     @contextlib.contextmanager
     def installed(self):
         import ssh_audit.dheat as dheat
-        VSocket.net = self
+        _CUR[0] = self
         old_time = dheat.time
         socket.socket = VSocket
         socket.getaddrinfo = self.getaddrinfo
